@@ -350,6 +350,15 @@ def install(engine: Any) -> None:
         return lst
 
     engine.ext_attrs[("Path", "parts")] = path_parts
+
+    def exc_lineno(it, base, node, fr):
+        """``lineno`` of an exception object of statically unknown class (SyntaxError): None or an integer"""
+        fn = z3.Function("exc_lineno_is_none", z3.IntSort(), z3.BoolSort())
+        fv = z3.Function("exc_lineno", z3.IntSort(), z3.IntSort())
+        return VOpt(fn(base.ident), VInt(fv(base.ident)))
+
+    for _k in ("Exception", "BaseException"):
+        engine.ext_attrs[(_k, "lineno")] = exc_lineno
     em[("Path", "glob")] = p_glob
     em[("Path", "relative_to")] = p_relative_to
     em[("Path", "as_posix")] = p_as_posix
